@@ -13,9 +13,11 @@ from props.c03 import gen_ctor
 PID = "C13"
 LEVEL = "proof"
 HB, SYNC, LOOP = "SyneTune/Drivers/Hb.lean", "SyneTune/Drivers/Sync.lean", "SyneTune/Drivers/Loop.lean"
+SEARCHER = "SyneTune/Drivers/Searcher.lean"
 DRIVER = HB
 from streams import loop as _loop
-COMPARE = {HB: hb.compare, SYNC: sync.compare, LOOP: _loop.compare}
+from streams import searcher as _searcher
+COMPARE = {HB: hb.compare, SYNC: sync.compare, LOOP: _loop.compare, SEARCHER: _searcher.compare}
 LEAN_TARGETS = ["SyneTune.Props.C13Hb", "SyneTune.Props.C13Sync", "SyneTune.Props.C13Loop", "SyneTune.Props.C14", "SyneTune.Props.C06", "SyneTune.Props.C04K"]
 THEOREMS = [
     "SyneTune.C13Hb.error_contained",
@@ -98,6 +100,16 @@ def gen_cases(rng, tier):
         yield {"kind": "generic", "name": "dehb", "sched_seed": sd, "seed": sd, "cs_kind": "mixed", "n_workers": 3,
                "max_events": 150, "style": "distinct", "p_fail": 0.1, "max_t": 9, "extra": {"brackets": 1 if sd == 0 else 2},
                "modes": ["min", "max"], "call_timeout": 8.0}
+    # model-based searchers on small finite spaces with many failures, duplicates allowed or not: a failed configuration
+    # is never suggested again
+    from props import c06
+    for _ in range(16 if tier == "quick" else 160):
+        spec = c06.gen_gp_case(rng, tier)
+        while not any(k for k in spec["space"]):
+            spec = c06.gen_gp_case(rng, tier)
+        spec.update({"kind": "gp", "p_fail": rng.choice([0.2, 0.35]), "p_nan": 0, "allow_duplicates": rng.random() < 0.6,
+                     "n_suggest": 14 if tier == "quick" else 20})
+        yield spec
     for spec in _loop_cases(rng, tier):
         yield spec
 
@@ -113,6 +125,17 @@ def corpus():
 
 def run_impl(spec):
     kind = spec["kind"]
+    if kind == "gp":
+        from props import c06
+        t = _searcher.run_gp_scenario(spec)
+        mon = [dict(f, signature=f["signature"].replace("c06:", "c13:")) for f in c06.monitor(spec, t)
+               if f["signature"] == "c06:failed-config-suggested-again"]
+        ev = t["events"]
+        fails = [i for i, e in enumerate(ev) if e["ev"] == "failed"]
+        nt = bool(fails) and any(e["ev"] == "suggest" for e in ev[fails[0]:])
+        return {"lines": t["lines"], "driver": SEARCHER, "monitor": mon,
+                "meta": {"hist": {"kind:gp": 1, "failures": len(fails), "gp_allow_duplicates:" + str(bool(spec.get("allow_duplicates"))): 1},
+                         "nontrivial": nt}}
     if kind == "hb":
         t = hb.run_scenario(spec)
         sched = t.pop("sched")
